@@ -333,7 +333,9 @@ class CallListerVisitor(ast.NodeVisitor):
             ns[node.id] = Unknown(node)
 
     def visit_Attribute(self, node):
-        pass
+        if not isinstance(node.value, (ast.Name, ast.Attribute)):
+            # eg. func(*args, **kwargs).attribute: the call is to be seen
+            self.visit(node.value)
 
     def has_hide_starargs(self, found, original):
         if found:
@@ -358,6 +360,13 @@ class CallListerVisitor(ast.NodeVisitor):
             for kw in node.keywords if kw.arg is not None)
         starargs = get_starargs(node)
         starkwargs = get_kwargs(node)
+        for several in (starargs, starkwargs):
+            if isinstance(several, Unknown):
+                # func(*a, *other(...)): nothing is concluded from them,
+                # but what their expressions do is still to be seen
+                for starred in several.source:
+                    if not isinstance(starred.value, ast.Name):
+                        self.visit(starred.value)
         varargs = self.resolve_name(starargs, ro=True) if starargs else None
         varkwargs = self.resolve_name(starkwargs, ro=True) if starkwargs else None
         use_varargs, hide_args = \
